@@ -377,6 +377,14 @@ def parsed_on_success(P, R):
             a = t.ev['args'][1]
             if isinstance(a, dict) and a.get('k') == 'un' and a.get('op') == '&' and is_var(a.get('e')):
                 succ.add(a['e']['name'])
+    # ... and the locals it is copied into (a helper that returns it, the caller's own variable)
+    changed = True
+    while changed:
+        changed = False
+        for t in sv.stores():
+            if t.ev['k'] == 'store' and is_var(t.ev.get('lhs')) and t.ev.get('op') == '=' and is_var(t.ev.get('rhs')) and t.ev['rhs']['name'] in succ and t.ev['lhs']['name'] not in succ:
+                succ.add(t.ev['lhs']['name'])
+                changed = True
     for s in cps:
         gs = sv.guards(s.bid)
         ok = any(is_var(g[0]) and g[0]['name'] in succ and g[1] == '!=' and const_of(g[2]) == 0 for g in gs)
